@@ -133,7 +133,7 @@ def mk(elt, n, A, b, family, nontrivial):
 
 def generate(rng, tier):
     cases = []
-    N = 80 if tier == "quick" else 400
+    N = 80 if tier == "quick" else 1200
     fams_r = ["dense", "zero-lead", "perm", "upper", "lower", "neg-dominant"]
     g = rng.fork("rat")
     for fam in fams_r:
